@@ -51,14 +51,17 @@ bool CronAlarm::initialize(const std::string &cron_expr_str)
   }
 
   const char *error_str = nullptr;
-  memset(sp_cron_expr_, 0, sizeof(cron_expr));
+  cron_expr new_expr; //! 先解析到临时变量，失败时不能破坏原有的表达式（否则状态仍为 kInited，enable() 会用空表达式无限递归）
+  memset(&new_expr, 0, sizeof(new_expr));
 
   // check validity of cron str
-  cron_parse_expr(cron_expr_str.c_str(), static_cast<cron_expr *>(sp_cron_expr_), &error_str);
+  cron_parse_expr(cron_expr_str.c_str(), &new_expr, &error_str);
   if (error_str != nullptr) { // Invalid expression.
     LogWarn("cron_expr error: %s", error_str);
     return false;
   }
+
+  memcpy(sp_cron_expr_, &new_expr, sizeof(cron_expr));
 
   state_ = State::kInited;
   return true;
